@@ -103,15 +103,18 @@ type specFunc struct {
 	ret     string
 	body    Expr // nil => uninterpreted
 	model   bool // abstract-state observer
+	opaque  bool // uninterpreted over the heap pieces named by reads
+	reads   []Expr
 	impls   []*specFunc
 	pkg     string
 	line    string
 }
 
 type axiomDecl struct {
-	name string
-	cl   *clause
-	pkg  string
+	name  string
+	cl    *clause
+	pkg   string
+	reads []Expr // state-generic axiom: quantified over these heap pieces
 }
 
 type lemmaDecl struct {
@@ -323,13 +326,33 @@ func (db *specDB) loadSpecFile(path string, pkgName string, isGo bool) error {
 				return fmt.Errorf("%s: bad statement string %s", where, at)
 			}
 			cur.ats = append(cur.ats, &atClause{kind: kw, cl: cl, stmt: normSrc(st), nth: nth})
-		case "spec", "model":
-			// spec func name(params) type [= expr]
+		case "spec", "model", "opaque":
+			// spec func name(params) type [= expr]   |   opaque func name(params) type reads e1, e2
+			var readsTxt string
+			if kw == "opaque" {
+				if j := strings.LastIndex(rest, " reads "); j >= 0 {
+					readsTxt = rest[j+7:]
+					rest = rest[:j]
+				}
+			}
 			sf, err := parseSpecFunc(rest, where)
 			if err != nil {
 				return err
 			}
 			sf.pkg = pkgName
+			if kw == "opaque" {
+				sf.opaque = true
+				for _, part := range splitTopLevel(readsTxt, ',') {
+					if strings.TrimSpace(part) == "" {
+						continue
+					}
+					e, err := parseExpr(strings.TrimSpace(part))
+					if err != nil {
+						return fmt.Errorf("%s: %v", where, err)
+					}
+					sf.reads = append(sf.reads, e)
+				}
+			}
 			if kw == "model" {
 				sf.model = true
 			}
@@ -353,7 +376,21 @@ func (db *specDB) loadSpecFile(path string, pkgName string, isGo bool) error {
 			if err != nil {
 				return err
 			}
-			db.axioms = append(db.axioms, &axiomDecl{name: strings.TrimSpace(rest[:j]), cl: cl, pkg: pkgName})
+			ax := &axiomDecl{pkg: pkgName}
+			head := strings.TrimSpace(rest[:j])
+			if k := strings.Index(head, " reads "); k >= 0 {
+				for _, part := range splitTopLevel(head[k+7:], ',') {
+					e, err := parseExpr(strings.TrimSpace(part))
+					if err != nil {
+						return fmt.Errorf("%s: %v", where, err)
+					}
+					ax.reads = append(ax.reads, e)
+				}
+				head = strings.TrimSpace(head[:k])
+			}
+			ax.name = head
+			ax.cl = cl
+			db.axioms = append(db.axioms, ax)
 			cur = nil
 		case "lemma":
 			// lemma [tags] name(params) mode bv: expr
